@@ -190,9 +190,20 @@ def post_length(ctx, call):
 
 
 def post_midpoint(ctx, call):
-    if call.exc is not None:
-        return
     self = call.args[0]
+    if call.exc is not None:
+        # a raise is judged when every segment has two distinct finite real end points
+        try:
+            cs_ = [_cartf(e) for _, e, _ in _each(self)]
+            valid = bool(cs_) and all(c is not None and not np.allclose(c[0], c[1]) for c in cs_)
+        except Exception:
+            valid = False
+        if valid:
+            ctx.judge("midpoint", False, [self.array], what=f"midpoint raised {type(call.exc).__name__}: {str(call.exc)[:80]}", op="Segment.midpoint",
+                      feat={"exc": type(call.exc).__name__}, nontrivial=True)
+        else:
+            ctx.skip("midpoint", "raised on a degenerate segment")
+        return
     res = call.result
     for pos, e, cs in _each(self):
         c = _cartf(e)
@@ -493,6 +504,28 @@ def g_simplices(ctx, rng, i):
     dim = 2 + i % 2
     mode = ["int", "float"][(i // 2) % 2]
     P = [g.Point(gen.finite_point(rng, dim, 7, mode)) for _ in range(4)]
+    # special positions: segments on a coordinate axis / coordinate hyperplane / through the origin, triangles with such an edge
+    k_ = int(rng.integers(0, dim))
+    e1, e2 = np.zeros(dim), np.zeros(dim)
+    e1[k_], e2[k_] = float(rng.integers(-6, 0)), float(rng.integers(1, 7))
+    th = gen.finite_point(rng, dim, 7, mode)[:-1].astype(float)
+    th[(k_ + 1) % dim] = 0.0  # lies in a coordinate hyperplane
+    if not np.any(th):
+        th[k_] = 3.0
+    for A_, B_ in ((e1, e2), (0 * e1, e2), (th, -2 * th), (th, th + e2), (e1 + np.eye(dim)[(k_ + 1) % dim] * 0, th * 0 + e2 * 2)):
+        if np.allclose(A_, B_):
+            continue
+        sp = _try(g.Segment, g.Point(*A_), g.Point(*B_))
+        if sp is not None:
+            _try(lambda: sp.midpoint)
+            _try(lambda: sp.length)
+        C_ = np.roll(e2, 1) + (np.eye(dim)[-1] if dim == 3 else 0)
+        if np.linalg.matrix_rank(np.stack([B_ - A_, C_ - A_])) == 2:
+            tr = _try(g.Triangle, g.Point(*A_), g.Point(*B_), g.Point(*C_))
+            if tr is not None:
+                _try(lambda: tr.circumcenter)
+                _try(lambda: tr.area)
+                _try(lambda: tr.centroid)
     s = _try(g.Segment, P[0], P[1])
     if s is not None:
         _try(lambda: s.length)
